@@ -219,12 +219,41 @@ func (t *Thread) enabled() bool {
 	return t.pred == nil || t.pred()
 }
 
+// StateSink, when set, receives a digest of the scheduler-visible state (every thread's
+// pending operation and completion, the virtual clock) at every scheduling decision; the
+// runner counts distinct digests as the 'states' of the evidence.
+var StateSink func(uint64)
+
+func (s *Sched) stateDigest() uint64 {
+	h := uint64(1469598103934665603)
+	mix := func(b byte) { h ^= uint64(b); h *= 1099511628211 }
+	for _, t := range s.threads {
+		if t.done {
+			mix(0xfe)
+			continue
+		}
+		for i := 0; i < len(t.op); i++ {
+			mix(t.op[i])
+		}
+		mix(0xff)
+	}
+	n := s.now
+	for i := 0; i < 8; i++ {
+		mix(byte(n))
+		n >>= 8
+	}
+	return h
+}
+
 // pickNext chooses the next thread (or advances time).  from is the yielding thread, or
 // nil when the running thread has just finished.
 func (s *Sched) pickNext(from *Thread) {
 	for {
 		s.steps++
 		s.X.Step()
+		if StateSink != nil {
+			StateSink(s.stateDigest())
+		}
 		if s.steps > s.Horizon {
 			s.out.Horizon = true
 			s.finish(from)
